@@ -8,6 +8,7 @@ import common
 import gen
 import schemacase as sc
 from canon import canon_elem, Unmodelled
+from coqemit import cq_json
 from common import Result, rng_for
 from props.c17 import strict_eq
 from props.c07 import exec_module
@@ -265,11 +266,30 @@ def run(tier, seed, replay=None):
                                            what="the class %s obtained by executing the generated source does not equal the parsed class" % c.__name__))
                         break
         res.sample({"schema": J0, "normal_form": J1} if len(json.dumps(J0)) < 400 else {"normal_form_keys": sorted(J1) if isinstance(J1, dict) else J1}, limit=3)
-        corr.append((J0, [], "c06"))
-    # parser model on the same documents (the serializer model is tied by C03)
-    metas, unmod, err = sc.run_stream(corr[:400 if tier == "quick" else 4000], tag="c06") if corr else ([], 0, None)
+        corr.append((J0, J1))
+    # parser model on the same documents (the serializer model is tied by C03), and on the documents whose parsed element lies
+    # in the normal form of C06_round_trip_normal_form (code 9): the model's document vs the pipeline's first normal form (6)
+    cases, metas = [], []
+    for J0, J1 in corr[:400 if tier == "quick" else 4000]:
+        try:
+            ob = sc.observe(J0, [])
+            pure = '"$ref"' not in json.dumps(J0) and isinstance(J1, dict) and "definitions" not in J1
+            cases.append("(%s, %s)" % (sc.cq_case(J0, ob["parse_obs"], ob["vals"]), ("(Some %s)" % cq_json(J1)) if pure else "None"))
+            metas.append({"schema": J0, "first_normal_form": J1, "codes": []})
+        except (Unmodelled, TypeError, AssertionError):
+            stats["unmodelled"] = stats.get("unmodelled", 0) + 1
+    codes, err = sc.eval_codes(["Elem", "Validate", "Parser", "RunSchema", "RunRound"], "run_case_c06", cases, tag="c06", shard=100) if cases else ({}, None)
+    for idx, cs in (codes or {}).items():
+        metas[idx]["codes"] = cs
     res.corr_error = err
-    res.corr_mismatches = [{"schema": m["schema"], "codes": m["codes"], "what": "Parser.v and the implementation build different trees"} for m in metas if 1 in m["codes"]]
+    res.corr_mismatches = [{"schema": m["schema"], "codes": [c for c in m["codes"] if c != 9],
+                            "what": "1 = Parser.v and the implementation build different trees; 6 = SerJson.v on the model's element differs from the "
+                                    "pipeline's first normal form; 7 = the model's round trip is not the identity on a normal-form element "
+                                    "(would contradict C06_round_trip_normal_form)"}
+                           for m in metas if any(c in m["codes"] for c in (1, 6, 7))]
+    # code 9: the parsed element lies in the class-free normal form (NfFrag.nfb, proved sound): there J2 == J1 holds in the model by
+    # theorem, and the implementation is tied to the model by the tree and document comparisons of this run
+    stats["theorem_applies"] = {"documents": sum(1 for m in metas if 9 in m["codes"]), "of": len(metas)}
     res.coverage["distribution"] = stats
     res.coverage["traces_validated_against_impl"] = len(metas)
     res.coverage["rule"] = ("documents (templates: renamed/required properties, repeated and case-variant titles, single-element type lists, local $ref "
